@@ -38,7 +38,10 @@ def generate(rng, prop, tier):
         label = rng.choice(B.PERSISTENT)
         kind, arg = rng.choice(M.KEYMAPS)
         fn = rng.weighted([(2, 'f1'), (4, 'f2'), (2, 'f3'), (3, 'f4'), (4, 'f5'), (4, 'f6'), (1, 'f7'), (1, 'f8'),
-                           (4, 'f9')])
+                           (4, 'f9'), (3, 'n9')])
+        if rng.chance(0.08):
+            # key OBJECTS pickled into the archive: raw keymap, many parameters (a flat key of more than 16 items)
+            label, kind, arg, fn = rng.choice(['file-pkl', 'file-pkl', 'dir-pkl']), 'raw', None, 'n9'
         km = {'kind': kind, 'arg': arg, 'flat': rng.chance(0.5), 'typed': rng.chance(0.25),
               'sentinel': rng.chance(0.3)}
         if kind == 'raw':
